@@ -34,6 +34,20 @@ def generate(rng, seed):
                 edges.append(e)
                 weights.append(rng.randint(1, 2))
         spec = {"nodes": nodes, "edges": edges, "labels": spec["labels"]}
+    if rng.random() < 0.12:
+        # few large, heavy, overlapping hyperedges: the product of the node counts exceeds 2**63
+        n = rng.randint(10, 12)
+        nodes = list(range(n))
+        k = rng.randint(8, min(10, n))
+        edges, seen = [], set()
+        for _ in range(rng.randint(2, 3)):
+            e = rng.sample(nodes, k)
+            if frozenset(e) not in seen:
+                seen.add(frozenset(e))
+                edges.append(e)
+        weights = [rng.randint(30, 80) for _ in edges]
+        spec = {"nodes": nodes, "edges": edges, "labels": "int"}
+        return {"engine": "svh", "seed": seed, "spec": spec, "weights": weights, "max_order": 10, "workers": rng.randint(1, 64)}
     return {"engine": "svh", "seed": seed, "spec": spec, "weights": weights, "max_order": rng.choice([2, 3, 4, 5, 10]),
             "workers": rng.randint(1, 64)}
 
